@@ -15,10 +15,13 @@ for f in kf:
     if f["status"] == "open":
         out.append("| %s | %s | %s |" % (f["property"], f["id"], f["what"].replace("|", "\\|")))
 out += ["", "### Seeded changes (written by sub-agents from the property text alone)", "",
-        "| id | property | what it needs to manifest | caught by (quick tier unless noted) |", "|---|---|---|---|"]
+        "| id | property | what it needs to manifest | caught by (quick tier, seed 1) | what had to be strengthened first |", "|---|---|---|---|---|"]
 for m in sorted(glob.glob("seeded/*/meta.json")):
     d = json.load(open(m))
-    caught = ", ".join(d.get("caught_by", [])) or "**missed** — " + d.get("missed_reason", "")
-    out.append("| %s | %s | %s | %s |" % (os.path.basename(os.path.dirname(m)), d["property"], d["needs"].replace("|", "\\|"), caught))
+    caught = ", ".join(d.get("caught_by", [])) or "**missed**"
+    if d.get("missed_reason"):
+        caught += " (not by %s: %s)" % (d["property"], d["missed_reason"])
+    out.append("| %s | %s | %s | %s | %s |" % (os.path.basename(os.path.dirname(m)), d["property"], d["needs"].replace("|", "\\|"), caught.replace("|", "\\|"),
+                                           (d.get("history") or "").replace("|", "\\|")))
 open("DESIGN.md", "w").write(s + "\n".join(out) + "\n")
 print("tables: %d repairs, %d open, %d seeded" % (sum(f["status"] == "fixed" for f in kf), sum(f["status"] == "open" for f in kf), len(glob.glob("seeded/*/meta.json"))))
